@@ -206,3 +206,31 @@ Proof.
   - apply conditions_justified_l.
   - apply capacity_error_deletes_l.
 Qed.
+
+(* ---------------------------------------------------------------- the two fixed behaviours *)
+
+Transparent registration liveness.
+
+(* fix 40852abfb: when the NodePool update conflicts or fails, the claim is not marked Registered in
+   this reconcile, so the retry runs the whole registration step again *)
+Lemma registered_only_after_pool_recorded_l k pl r :
+  c_r (r_im r) <> RTrue -> k_pool k = true -> (f_pool_reg pl = WConflict \/ f_pool_reg pl = WErr) ->
+  c_r (r_im (registration k pl r)) <> RTrue.
+Proof.
+  intros Hn Hk Hw. unfold registration, pool_then_registered, hook_return, err_of_wr. rewrite Hk.
+  destruct Hw as [-> | ->]; repeat bm; simpl; congruence.
+Qed.
+
+Definition is_del_live (e : eff) : bool := match e with EDelLive _ => true | _ => false end.
+
+(* fix 3cbc43e89: one Liveness pass deletes the NodeClaim at most once (and records at most one failure) *)
+Lemma liveness_deletes_once_l k pl r :
+  exists x, r_effs (liveness k pl r) = r_effs r ++ x /\ (length (filter is_del_live x) <= 1)%nat.
+Proof.
+  unfold liveness, live_registration, live_site, err_of_wr.
+  repeat bm; simpl; repeat rewrite <- app_assoc; simpl;
+    first [ solve [exists []; rewrite app_nil_r; split; [reflexivity|simpl; lia]]
+          | solve [eexists; split; [reflexivity|simpl; lia]] ].
+Qed.
+
+Opaque registration liveness.
